@@ -23,9 +23,15 @@ CONSTANTS
     Bodies,        \* 1..n : distinct certificates (keys) available per (owner, serial)
     KeySeq,        \* all <<owner, serial>> pairs in the order the certificate store sorts them
     ZeroSerials,   \* serial classes whose big-endian byte encoding is empty (the number 0)
-    Impl,          \* "intended" | "asfound" (as found: decoding a key with an empty serial suffix panics)
+    Impl,          \* "intended" | "asfound". As found (known finding, root cause in the SDK's FilteredPaginate):
+                   \* a first page requested with count_total keeps scanning after it has seen the next
+                   \* page's first hit and overwrites next_key with every non-matching key that follows it
+    ZeroSerialPanics, \* BOOLEAN: the defect D4 as found before the fix (decoding a key with an empty serial
+                   \* suffix panics); FALSE describes the code after fix fe8a768
     MaxOps,        \* bound on accepted transactions per behaviour (model checking only)
     PageSizes,     \* page sizes of paginated listings; 0 = no pagination requested
+    PageModes,     \* how a client pages: "key" (follow next_key), "total" (the same, asking for count_total),
+                   \* "offset" (offset += page size until next_key is empty)
     WithQueries    \* BOOLEAN: include the query actions (off for behaviour export)
 
 VARIABLES
@@ -114,39 +120,60 @@ LaterPages(r, f, scan, p, ps) ==
     ELSE IF e = Len(scan) THEN << Span(r, f, scan, p, e) >>
     ELSE << Span(r, f, scan, p, e) >> \o LaterPages(r, f, scan, e + 1, ps)
 
-\* first page: no key; the scan stops at the (ps+1)-th hit, whose key is the next key
-PageSpans(r, f, ps) ==
+\* following next_key. First page: no key; the scan stops at the (ps+1)-th hit, whose key is the next key.
+\* With count_total the first page scans on to the end to count; as found, every non-matching key after the
+\* (ps+1)-th hit (up to the following hit) overwrites next_key, so that hit is skipped.
+KeyPages(r, f, ps, total) ==
+    LET scan == ScanSeq(r, f)
+        j    == NthHit(r, f, scan, 1, ps + 1)
+    IN  IF j = 0 THEN << Span(r, f, scan, 1, Len(scan)) >>
+        ELSE LET j2    == NthHit(r, f, scan, j + 1, 1)
+                 start == IF total /\ Impl = "asfound"
+                          THEN (IF j2 = 0 THEN Len(scan) ELSE j2 - 1) ELSE j
+                 upto  == IF total THEN Len(scan) ELSE j
+             IN  << [items |-> Span(r, f, scan, 1, j - 1).items, scanned |-> {scan[i] : i \in 1..upto}] >>
+                 \o LaterPages(r, f, scan, start, ps)
+
+\* stepping the offset by the page size until a response carries no next_key (there is one iff a hit follows
+\* the page); page n (from 0) holds hits n*ps+1 .. (n+1)*ps
+RECURSIVE OffsetPages(_, _, _, _, _)
+OffsetPages(r, f, scan, n, ps) ==
+    LET a == IF n = 0 THEN 1 ELSE NthHit(r, f, scan, 1, n * ps + 1)   \* first hit of the page (exists for n > 0)
+        j == NthHit(r, f, scan, 1, (n + 1) * ps + 1)                  \* the hit after the page, if any
+    IN  IF j = 0 THEN << [items |-> Span(r, f, scan, a, Len(scan)).items, scanned |-> {scan[i] : i \in 1..Len(scan)}] >>
+        ELSE << [items |-> Span(r, f, scan, a, j - 1).items, scanned |-> {scan[i] : i \in 1..j}] >>
+             \o OffsetPages(r, f, scan, n + 1, ps)
+
+PageSpans(r, f, ps, pm) ==
     LET scan == ScanSeq(r, f) IN
     IF ps = 0 THEN << Span(r, f, scan, 1, Len(scan)) >>
-    ELSE LET j == NthHit(r, f, scan, 1, ps + 1) IN
-         IF j = 0 THEN << Span(r, f, scan, 1, Len(scan)) >>
-         ELSE << [items |-> Span(r, f, scan, 1, j - 1).items, scanned |-> {scan[i] : i \in 1..j}] >>
-              \o LaterPages(r, f, scan, j, ps)
+    ELSE IF pm = "offset" THEN OffsetPages(r, f, scan, 0, ps)
+    ELSE KeyPages(r, f, ps, pm = "total")
 
-\* as found, decoding the serial of a stored key with an empty serial suffix panics
-ScanFails(spans) == Impl = "asfound" /\ \E i \in DOMAIN spans : \E k \in spans[i].scanned : k[2] \in ZeroSerials
+\* D4 as found: decoding the serial of a stored key with an empty serial suffix panics
+ScanFails(spans) == ZeroSerialPanics /\ \E i \in DOMAIN spans : \E k \in spans[i].scanned : k[2] \in ZeroSerials
 
-ListRes(r, f, ps) ==
+ListRes(r, f, ps, pm) ==
     IF IsDirect(f)
     THEN [ok |-> TRUE,
           pages |-> << IF Registered(r, f.o, f.s) /\ Hit(r, f, <<f.o, f.s>>)
                        THEN << Item(r, <<f.o, f.s>>) >> ELSE << >> >>]
-    ELSE LET sp == PageSpans(r, f, ps) IN
+    ELSE LET sp == PageSpans(r, f, ps, pm) IN
          [ok |-> ~ScanFails(sp), pages |-> [i \in DOMAIN sp |-> sp[i].items]]
 
-IterRes(r, f) == ListRes(r, [f EXCEPT !.s = ""], 0)
+IterRes(r, f) == ListRes(r, [f EXCEPT !.s = ""], 0, "key")
 GetRes(r, o, s) ==
     [ok |-> TRUE, pages |-> << IF Registered(r, o, s) THEN << Item(r, <<o, s>>) >> ELSE << >> >>]
 
-QRec(kind, f, ps, res) == [k |-> kind, f |-> f, ps |-> ps, ok |-> res.ok, pages |-> res.pages]
+QRec(kind, f, ps, pm, res) == [k |-> kind, f |-> f, ps |-> ps, pm |-> pm, ok |-> res.ok, pages |-> res.pages]
 
-List(f, ps) == out' = QRec("list", f, ps, ListRes(reg, f, ps)) /\ UNCHANGED reg
-Iter(f)     == out' = QRec("iter", f, 0, IterRes(reg, f)) /\ UNCHANGED reg
-Get(o, s)   == out' = QRec("get", [o |-> o, s |-> s, st |-> ""], 0, GetRes(reg, o, s)) /\ UNCHANGED reg
+List(f, ps, pm) == out' = QRec("list", f, ps, pm, ListRes(reg, f, ps, pm)) /\ UNCHANGED reg
+Iter(f)     == out' = QRec("iter", f, 0, "key", IterRes(reg, f)) /\ UNCHANGED reg
+Get(o, s)   == out' = QRec("get", [o |-> o, s |-> s, st |-> ""], 0, "key", GetRes(reg, o, s)) /\ UNCHANGED reg
 
 \* what the specification says a recorded query must have returned
 SpecRes(r, q) ==
-    CASE q.k = "list" -> ListRes(r, q.f, q.ps)
+    CASE q.k = "list" -> ListRes(r, q.f, q.ps, q.pm)
       [] q.k = "iter" -> IterRes(r, q.f)
       [] q.k = "get"  -> GetRes(r, q.f.o, q.f.s)
 
@@ -165,7 +192,9 @@ MsgNext ==
 
 QueryNext ==
     /\ WithQueries
-    /\ \/ \E f \in Filters, ps \in PageSizes : List(f, ps)
+    /\ \/ \E f \in Filters, ps \in PageSizes, pm \in PageModes :
+             /\ pm # "key" => (ps > 0 /\ f.s = "")   \* the other paging styles on the iterating listings only
+             /\ List(f, ps, pm)
        \/ \E f \in Filters : f.s = "" /\ Iter(f)
        \/ \E o \in Owners, s \in Serials : Get(o, s)
 
